@@ -226,7 +226,8 @@ def repo_rel(path):
 
 def parse_report(err):
     """-> (kind, site, ubsan_only) from a sanitizer report on stderr"""
-    asan = re.search(r"ERROR: AddressSanitizer: ([\w-]+)", err)
+    # drv keeps the last 20000 bytes of stderr: with template-heavy stacks the header can be cut off, the SUMMARY line never is
+    asan = re.search(r"ERROR: AddressSanitizer: ([\w-]+)", err) or re.search(r"SUMMARY: AddressSanitizer: ([\w-]+)", err)
     ub = re.search(r"(\S+?):(\d+):\d+: runtime error: ([^\n]*)", err)
     if asan and asan.group(1) in ("out-of-memory", "allocation-size-too-big", "calloc-overflow") or "rss limit exhausted" in err or "SUMMARY: AddressSanitizer: out-of-memory" in err:
         # memory exhaustion: the site of the failing allocation is arbitrary; the stable site is the engine function
@@ -244,6 +245,10 @@ def parse_report(err):
             if build.REPO in m.group(2) or "/src/" in m.group(2):
                 site = "%s:%s" % (repo_rel(m.group(2)), m.group(3))
                 break
+        if site == "?":
+            m = re.search(r"SUMMARY: AddressSanitizer: [\w-]+ (/\S+?):(\d+)", err)
+            if m:
+                site = "%s:%s" % (repo_rel(m.group(1)), m.group(2))
         return "asan " + asan.group(1), site, False
     asrt = re.search(r"(\S+?):(\d+): [^\n]*Assertion `([^\n]*)' failed", err)
     if asrt:
@@ -416,7 +421,11 @@ def execute(variant, case):
     problems, diags = [], []
     setup, fn, arg = case_call(case)
     text_of_call = arg if fn in ("RunString", "LoadDatabaseString") else next((c[2] for c in setup if c[0] == "writefile"), None) or "\n".join(c[4] for c in setup if c[0] == "call" and c[3] == "AccumulateLine")
-    ref = reference(variant, survivors_of(setup))
+    surv = survivors_of(setup)
+    if case["k"] == "fault" and case["f"] == "insel":
+        # DUMP -file <name> in the input sets the instance's dump file name; a user-set file name survives a load (C07)
+        surv = surv + [("call", "s0", "c", "SetDumpFileName", BADNAMES[case["name"]])]
+    ref = reference(variant, surv)
     fresh(d)
     d.cmd("mkdir", "adir")
     for name, content in SCRATCH_FILES:
